@@ -232,6 +232,13 @@ def path_hypotheses(path, tr, only_syms=None):
     for (at, name, args) in path.fun_atoms.values():
         if name == 'exp' and keep(at):
             hs.append(tr.poly(at) > 0)
+            # exp is monotone with exp(0) = 1 (library axiom, DESIGN S7)
+            if only_syms is None or set(args[0].free_symbols) <= only_syms:
+                try:
+                    hs.append(z3.Implies(tr.sign_constraint(args[0], (POS, ZERO)), tr.poly(at) >= 1))
+                    hs.append(z3.Implies(tr.sign_constraint(args[0], (NEG, ZERO)), tr.poly(at) <= 1))
+                except S.Unsupported:
+                    pass
     return hs
 
 
